@@ -393,7 +393,7 @@ Section Show.
         if flag t w_ByteSlice then
           match v with
           | VBytes b => ROk (q :: lf_base64 L b ++ [q])
-          | VNilRef => ROk [q; q]
+          | VNilRef => ROk s_null               (* value.([]byte) with b != nil fails: v.IsNil() *)
           | _ => RStuck
           end
         else
